@@ -40,7 +40,7 @@ class Workload:
                  big=True, listen_late=False):
         self.w = w
         self.tape = tape
-        if w.opts.get("_tier") == "thorough":
+        if w.opts.get("_tier") == "thorough" and names:
             max_subs, max_ops = max_subs + 2, max_ops * 3
         self.scripts = {"A": [], "B": []}
         self.pc = {"A": 0, "B": 0}
